@@ -701,3 +701,116 @@ func FirstMatchLoops(p *core.Program, r *core.Report) {
 	r.Floor("C02-first", 4)
 	_ = n
 }
+
+// AdminRuleIterationSiblings is C02-sib: the eight rule-iteration methods (ANP/BANP x ingress/egress x connection
+// set / single query) are one implementation written eight times; each must range over its own direction's rules,
+// hand the rule's peers, ports and action to the helper of its direction, pass the peers in role order and tell
+// the helper whether the rule belongs to the baseline policy.
+func AdminRuleIterationSiblings(p *core.Program, r *core.Report, rule string) {
+	type sib struct {
+		recv, name string
+		ingress    bool
+		banp       bool
+		helper     string
+	}
+	var sibs []sib
+	for _, t := range []struct {
+		recv string
+		banp bool
+	}{{"AdminNetworkPolicy", false}, {"BaselineAdminNetworkPolicy", true}} {
+		sibs = append(sibs,
+			sib{t.recv, "GetIngressPolicyConns", true, t.banp, "updateConnsIfIngressRuleSelectsPeer"},
+			sib{t.recv, "GetEgressPolicyConns", false, t.banp, "updateConnsIfEgressRuleSelectsPeer"},
+			sib{t.recv, "CheckIngressConnAllowed", true, t.banp, "checkIfIngressRuleContainsConn"},
+			sib{t.recv, "CheckEgressConnAllowed", false, t.banp, "checkIfEgressRuleContainsConn"})
+	}
+	for _, s := range sibs {
+		fd := p.Func(core.PkgK8s, s.recv, s.name)
+		if fd == nil {
+			r.Lost(rule, "(*"+s.recv+")."+s.name)
+			continue
+		}
+		info := fd.Pkg.TypesInfo
+		sig := fd.Obj.Type().(*types.Signature)
+		dir, peersField := "Egress", "To"
+		if s.ingress {
+			dir, peersField = "Ingress", "From"
+		}
+		var bad []string
+		var rs *ast.RangeStmt
+		ast.Inspect(fd.Decl.Body, func(n ast.Node) bool {
+			if x, ok := n.(*ast.RangeStmt); ok && rs == nil {
+				rs = x
+			}
+			return true
+		})
+		if rs == nil || !strings.HasSuffix(core.ExprStr(rs.X), ".Spec."+dir) {
+			bad = append(bad, "does not range over Spec."+dir)
+		}
+		var call *ast.CallExpr
+		ast.Inspect(fd.Decl.Body, func(n ast.Node) bool {
+			if c, ok := n.(*ast.CallExpr); ok {
+				if fn := core.Callee(info, c); fn != nil && fn.Name() == s.helper {
+					call = c
+				}
+			}
+			return true
+		})
+		if call == nil {
+			bad = append(bad, "does not call "+s.helper)
+		} else if rs != nil {
+			ruleVar, _ := rs.Value.(*ast.Ident)
+			resolve := func(e ast.Expr) string {
+				if id, ok := ast.Unparen(e).(*ast.Ident); ok {
+					if d, _ := defOf(fd, id); d != nil {
+						return core.ExprStr(d)
+					}
+				}
+				return core.ExprStr(e)
+			}
+			rn := ""
+			if ruleVar != nil {
+				rn = ruleVar.Name
+			}
+			args := call.Args
+			if got := resolve(args[0]); got != rn+"."+peersField {
+				bad = append(bad, "peers argument is "+got)
+			}
+			if got := resolve(args[1]); got != rn+".Ports" {
+				bad = append(bad, "ports argument is "+got)
+			}
+			// peers in role order: the method's own Peer parameters, in order
+			k := 2
+			for i := 0; i < sig.Params().Len(); i++ {
+				if !core.TypeIs(sig.Params().At(i).Type(), core.PkgK8s, "Peer") {
+					continue
+				}
+				if k >= len(args) {
+					bad = append(bad, "too few arguments")
+					break
+				}
+				id, ok := ast.Unparen(args[k]).(*ast.Ident)
+				if !ok || info.ObjectOf(id) != sig.Params().At(i) {
+					bad = append(bad, fmt.Sprintf("argument #%d is %s, not the parameter %s", k+1, core.ExprStr(args[k]), sig.Params().At(i).Name()))
+				}
+				k++
+			}
+			hasAction := false
+			for _, a := range args {
+				if core.ExprStr(a) == "string("+rn+".Action)" {
+					hasAction = true
+				}
+			}
+			if !hasAction {
+				bad = append(bad, "the rule's action is not passed")
+			}
+			last := core.ExprStr(args[len(args)-1])
+			if last != fmt.Sprint(s.banp) {
+				bad = append(bad, "the baseline flag is "+last)
+			}
+		}
+		r.Check(len(bad) == 0, rule, fmt.Sprintf("%s: iterates Spec.%s and hands each rule's %s, ports and action, the peers in role order and baseline=%v to %s", fd.Key(), dir, peersField, s.banp, s.helper), p.Pos(fd.Decl.Pos()), "",
+			"this sibling deviates from the other seven: "+strings.Join(bad, "; "))
+	}
+	r.Floor(rule, 8)
+}
